@@ -33,7 +33,7 @@ from ..engine import (
 )
 from ..runner import V
 
-from pokerkit import Card, Mode, Pot
+from pokerkit import Automation, Card, Mode, Pot
 
 ID = 'C08'
 RULE = (
@@ -145,8 +145,13 @@ def candidates(s, kind, unit):
             out.append((tuple(deck[:3]),))
             out.append((tuple(deck[:1]) * 2,))
         j = s.hole_dealee_index
-        if j is not None and not s.hole_dealing_statuses[j][0]:
-            out.append(('??',))       # unknown cards only face down
+        if j is not None and not s.hole_dealing_statuses[j][0] and \
+                Automation.HOLE_CARDS_SHOWING_OR_MUCKING not in s.automations:
+            # unknown cards only face down, and only where the players table
+            # their hands themselves: an automated all-in showdown cannot
+            # table '??' (stated domain: showdown hands known), and the deal
+            # that completes the street would fail in that cascade
+            out.append(('??',))
         for i in idx:
             out.append((None, i))
             out.append((1, i))
